@@ -69,7 +69,7 @@ Ltac isT_conc :=
 Ltac in_sub := let a := fresh "a" in let Ha := fresh "Ha" in intros a Ha; cbn [In] in *; tauto.
 
 (* clause keywords after the FROM clause, in order, and what may follow a SELECT *)
-Definition Tstop : list tty := [TyEOF; TySemicolon; TyRParen; TyUnion; TyExcept; TyIntersect; TyReturning].
+Definition Tstop : list tty := [TyEOF; TySemicolon; TyRParen; TyUnion; TyExcept; TyIntersect; TyReturning; TyOn].
 Definition T5 := TyOffset :: Tstop.
 Definition T4 := TyLimit :: T5.
 Definition T3 := TyOrder :: T4.
@@ -884,7 +884,8 @@ Section SP.
     destruct (tty_eqb (ty t) TyOrder); [reflexivity|].
     destruct (tty_eqb (ty t) TyLimit); [reflexivity|].
     destruct (tty_eqb (ty t) TyOffset); [reflexivity|].
-    destruct (tty_eqb (ty t) TyReturning); [repeat rewrite orb_true_r; reflexivity|]. discriminate H.
+    destruct (tty_eqb (ty t) TyReturning); [repeat rewrite orb_true_r; reflexivity|].
+    destruct (tty_eqb (ty t) TyOn); [repeat rewrite orb_true_r; reflexivity|]. discriminate H.
   Qed.
 
   Lemma joins_all_ref : forall l, forallb join_ok l = true -> Forall join_ref_ok l.
@@ -1169,6 +1170,7 @@ End SetOps.
 Definition Tq : list tty := [TyEOF; TySemicolon; TyRParen].
 Definition Tret := TyReturning :: Tq.
 Definition Twr := TyWhere :: Tret.
+Definition Ton := TyOn :: Tret.
 
 Lemma stmt_follow_hd : forall stop, stmt_follow stop -> hd_in Tq stop /\ String.eqb (lit (cur stop)) "RETURNING" = false.
 Proof.
@@ -1328,15 +1330,20 @@ Section Stmts.
     apply hd_list; [exact HR|reflexivity].
   Qed.
 
-  Lemma opt_where_ok : forall (sr : srho) w R d, optb ref_expr w = true -> hd_in Tret R ->
-      S d + opt_depth (sr cl_where 0) w <= md -> length (where_toks sr w ++ R) < fuel ->
-      parse_opt_where pe d (where_toks sr w ++ R) = Val (option_map ast_of w, R).
+  Lemma opt_where_at_ok : forall (r : rho) w R d, optb ref_expr w = true -> hd_in Tret R ->
+      S d + opt_depth r w <= md -> length (where_toks_at r w ++ R) < fuel ->
+      parse_opt_where pe d (where_toks_at r w ++ R) = Val (option_map ast_of w, R).
   Proof.
-    intros sr w R d Href HR Hdep Hlen. unfold where_toks in *. destruct w as [e|]; cbn [opt_clause app option_map opt_depth optb] in *.
+    intros r w R d Href HR Hdep Hlen. unfold where_toks_at in *. destruct w as [e|]; cbn [opt_clause app option_map opt_depth optb] in *.
     - unfold parse_opt_where. cbn [cur advance]. isT_conc. cbn iota.
       rewrite (pe_item md fuel); [reflexivity|assumption|apply HR|assumption|cbn [length] in Hlen; lia].
     - unfold parse_opt_where. hd_rw HR. reflexivity.
   Qed.
+
+  Lemma opt_where_ok : forall (sr : srho) w R d, optb ref_expr w = true -> hd_in Tret R ->
+      S d + opt_depth (sr cl_where 0) w <= md -> length (where_toks sr w ++ R) < fuel ->
+      parse_opt_where pe d (where_toks sr w ++ R) = Val (option_map ast_of w, R).
+  Proof. intros sr w R d. apply (opt_where_at_ok (sr cl_where 0)). Qed.
 
   Lemma skip_limit_id : forall R, hd_in Tret R -> skip_limit R = R.
   Proof. intros R HR. unfold skip_limit. hd_rw HR. reflexivity. Qed.
@@ -1365,10 +1372,36 @@ Section Stmts.
 
   (* ---------------------------------------------------------------------------------------------- *)
   (* UPDATE *)
-  Lemma sets_sep_cons2 : forall (sr : srho) i c e x tl,
-      sep_by [tComma] (sets_toks sr i ((c, e) :: x :: tl))
-      = (Tk TyIdent c :: Tk TyEq "=" :: render 0 (sr cl_set i) e) ++ tComma :: sep_by [tComma] (sets_toks sr (S i) (x :: tl)).
+  Lemma assign_sep_cons2 : forall (sr : srho) c i n e x tl,
+      sep_by [tComma] (assign_toks sr c i ((n, e) :: x :: tl))
+      = (Tk TyIdent n :: Tk TyEq "=" :: render 0 (sr c i) e) ++ tComma :: sep_by [tComma] (assign_toks sr c (S i) (x :: tl)).
   Proof. intros. destruct x. reflexivity. Qed.
+
+  Lemma assign_list_ok : forall l, forallb (fun ce : string * mexpr => ref_expr (snd ce)) l = true -> l <> [] ->
+      forall (sr : srho) c i d acc R n,
+        hd_in Twr R ->
+        S d + assign_depth sr c i l <= md ->
+        length (sep_by [tComma] (assign_toks sr c i l) ++ R) < fuel ->
+        length (sep_by [tComma] (assign_toks sr c i l) ++ R) < n ->
+        set_list pe n d acc (sep_by [tComma] (assign_toks sr c i l) ++ R) = Val (acc ++ ast_of_sets l, R).
+  Proof.
+    induction l as [|[nm e] tl IH]; intros Href Hne sr c i d acc R n HR Hdep Hlen Hn; [contradiction|].
+    cbn [forallb snd] in Href. apply andb_prop in Href. destruct Href as [Hre Hrtl].
+    cbn [assign_depth] in Hdep.
+    destruct n as [|n]; [lia|].
+    destruct tl as [|x tl'].
+    - cbn [assign_toks sep_by app] in *. cbn [length] in Hlen, Hn.
+      cbn [set_list cur advance]. unfold is_identifier. isT_conc. cbn [orb negb lit]. cbn iota.
+      rewrite (pe_item md fuel); [|assumption|apply HR|lia|lia].
+      cbn [bind]. rewrite (hd_isT Twr R TyComma HR eq_refl). reflexivity.
+    - rewrite assign_sep_cons2 in *. cbn [app] in *. rewrite <- app_assoc in *. cbn [app] in *.
+      cbn [length] in Hlen, Hn. rewrite app_length in Hlen, Hn. cbn [length] in Hlen, Hn.
+      cbn [set_list cur advance]. unfold is_identifier. isT_conc. cbn [orb negb lit]. cbn iota.
+      rewrite (pe_item md fuel); [|assumption|reflexivity|lia|rewrite app_length; cbn [length]; lia].
+      cbn [bind cur advance]. change (isT tComma TyComma) with true. cbn iota.
+      rewrite (IH Hrtl ltac:(discriminate) sr c (S i) d (acc ++ [(GIdent nm "", ast_of e)]) R n HR); [|lia|lia|lia].
+      rewrite <- app_assoc. reflexivity.
+  Qed.
 
   Lemma set_list_ok : forall l, forallb (fun ce : string * mexpr => ref_expr (snd ce)) l = true -> l <> [] ->
       forall (sr : srho) i d acc R n,
@@ -1377,24 +1410,7 @@ Section Stmts.
         length (sep_by [tComma] (sets_toks sr i l) ++ R) < fuel ->
         length (sep_by [tComma] (sets_toks sr i l) ++ R) < n ->
         set_list pe n d acc (sep_by [tComma] (sets_toks sr i l) ++ R) = Val (acc ++ ast_of_sets l, R).
-  Proof.
-    induction l as [|[c e] tl IH]; intros Href Hne sr i d acc R n HR Hdep Hlen Hn; [contradiction|].
-    cbn [forallb snd] in Href. apply andb_prop in Href. destruct Href as [Hre Hrtl].
-    cbn [sets_depth] in Hdep.
-    destruct n as [|n]; [lia|].
-    destruct tl as [|x tl'].
-    - cbn [sets_toks sep_by app] in *. cbn [length] in Hlen, Hn.
-      cbn [set_list cur advance]. unfold is_identifier. isT_conc. cbn [orb negb lit]. cbn iota.
-      rewrite (pe_item md fuel); [|assumption|apply HR|lia|lia].
-      cbn [bind]. rewrite (hd_isT Twr R TyComma HR eq_refl). reflexivity.
-    - rewrite sets_sep_cons2 in *. cbn [app] in *. rewrite <- app_assoc in *. cbn [app] in *.
-      cbn [length] in Hlen, Hn. rewrite app_length in Hlen, Hn. cbn [length] in Hlen, Hn.
-      cbn [set_list cur advance]. unfold is_identifier. isT_conc. cbn [orb negb lit]. cbn iota.
-      rewrite (pe_item md fuel); [|assumption|reflexivity|lia|rewrite app_length; cbn [length]; lia].
-      cbn [bind cur advance]. change (isT tComma TyComma) with true. cbn iota.
-      rewrite (IH Hrtl ltac:(discriminate) sr (S i) d (acc ++ [(GIdent c "", ast_of e)]) R n HR); [|lia|lia|lia].
-      rewrite <- app_assoc. reflexivity.
-  Qed.
+  Proof. intros l Href Hne sr i. apply (assign_list_ok l Href Hne sr cl_set i). Qed.
 
   Lemma parse_update_ok : forall (sr : srho) t sets wh ret stop d,
       path_ok t = true -> sets <> [] -> forallb (fun ce : string * mexpr => ref_expr (snd ce)) sets = true ->
@@ -1431,7 +1447,7 @@ Section Stmts.
 
   Lemma values_rows_ok : forall rows, forallb row_ok rows = true -> rows <> [] ->
       forall (sr : srho) i d acc R n,
-        hd_in Tret R ->
+        hd_in Ton R ->
         S d + rows_depth sr i rows <= md ->
         length (sep_by [tComma] (rows_toks sr i rows) ++ R) < fuel ->
         length (sep_by [tComma] (rows_toks sr i rows) ++ R) < n ->
@@ -1450,7 +1466,7 @@ Section Stmts.
       cbn [values_rows cur advance]. isT_conc. cbn iota. cbn [negb].
       rewrite (expr_list_ok md fuel row Hrref Hrow_ne sr cl_values i d [] (tRP :: R) _ [TyRParen] (HRP R) eq_refl); [|lia|lia|lia].
       cbn [bind cur advance app]. isT_conc. cbn iota. cbn [negb].
-      rewrite (hd_isT Tret R TyComma HR eq_refl). reflexivity.
+      rewrite (hd_isT Ton R TyComma HR eq_refl). reflexivity.
     - rewrite rows_sep_cons2 in *. unfold row_toks in *. cbn [app] in *. rewrite <- !app_assoc in *. cbn [app] in *.
       cbn [length] in Hlen, Hn. rewrite !app_length in Hlen, Hn. cbn [length] in Hlen, Hn.
       cbn [values_rows cur advance]. isT_conc. cbn iota. cbn [negb].
@@ -1461,27 +1477,116 @@ Section Stmts.
       rewrite <- app_assoc. reflexivity.
   Qed.
 
-  Lemma parse_insert_ok : forall (sr : srho) base t cols src ret stop d,
-      body_ok (BInsert t cols src ret) = true ->
+  (* ON CONFLICT *)
+  Lemma on_conflict_ok : forall (sr : srho) c R d,
+      conflict_ok c = true -> hd_in Tret R ->
+      S d + conflict_depth sr (Some c) <= md ->
+      length (conflict_toks sr (Some c) ++ R) < fuel ->
+      exists tail, conflict_toks sr (Some c) ++ R = Tk TyOn "ON" :: Tk TyIdent "CONFLICT" :: tail /\
+                   parse_on_conflict pe d tail = Val (ast_of_conflict c, R).
+  Proof.
+    intros sr [tg act] R d Hok HR Hdep Hlen. unfold conflict_ok in Hok. cbn [cf_target cf_action] in Hok.
+    apply andb_prop in Hok. destruct Hok as [Htg Hact].
+    cbn [conflict_toks cf_target cf_action] in *. eexists. split; [cbn [app]; reflexivity|].
+    repeat (cbn [app] in *; rewrite <- app_assoc in * ). cbn [app] in *.
+    unfold parse_on_conflict, ast_of_conflict. cbn [cf_target cf_action].
+    (* the part after the target *)
+    assert (Hact_ok : forall tgl cn,
+               (if negb (eqfold (lit (cur (Tk TyIdent "DO" :: match act with
+                                                | CaNothing => [Tk TyIdent "NOTHING"]
+                                                | CaUpdate sets wh => Tk TyUpdate "UPDATE" :: Tk TySet "SET" :: sep_by [tComma] (assign_toks sr cl_cset 0 sets) ++ where_toks_at (sr cl_cwhere 0) wh
+                                                end ++ R))) "DO") then Err EExpected
+                else
+                  let ts := advance (Tk TyIdent "DO" :: match act with
+                                                | CaNothing => [Tk TyIdent "NOTHING"]
+                                                | CaUpdate sets wh => Tk TyUpdate "UPDATE" :: Tk TySet "SET" :: sep_by [tComma] (assign_toks sr cl_cset 0 sets) ++ where_toks_at (sr cl_cwhere 0) wh
+                                                end ++ R) in
+                  if eqfold (lit (cur ts)) "NOTHING" then Val (GConflict tgl cn true [] None, advance ts)
+                  else if isT (cur ts) TyUpdate then
+                    let ts := advance ts in
+                    if negb (isT (cur ts) TySet) then Err EExpected
+                    else
+                      let ts := advance ts in
+                      do (asg, ts1) <- set_list pe (S (length ts)) d [] ts;
+                      do (wh, ts2) <- parse_opt_where pe d ts1;
+                      Val (GConflict tgl cn false asg wh, ts2)
+                  else Err EExpected)
+               = Val (GConflict tgl cn (match act with CaNothing => true | _ => false end)
+                        (match act with CaUpdate sets _ => ast_of_sets sets | _ => [] end)
+                        (match act with CaUpdate _ wh => option_map ast_of wh | _ => None end), R)).
+    { intros tgl cn. cbn [cur advance lit].
+      change (eqfold "DO" "DO") with true. cbn [negb]. cbn iota.
+      destruct act as [|sets wh].
+      - cbn [app cur advance lit]. change (eqfold "NOTHING" "NOTHING") with true. cbn iota. reflexivity.
+      - apply andb_prop in Hact. destruct Hact as [Hact Hwh]. apply andb_prop in Hact. destruct Hact as [Hsne Hsets].
+        cbn [app cur advance lit]. change (eqfold "UPDATE" "NOTHING") with false. cbn iota. isT_conc. cbn iota. cbn [negb].
+        assert (HRw : hd_in Twr (where_toks_at (sr cl_cwhere 0) wh ++ R)) by (apply hd_opt; [exact HR|reflexivity]).
+        cbn [conflict_depth] in Hdep.
+        assert (Hl2 : length (sep_by [tComma] (assign_toks sr cl_cset 0 sets) ++ where_toks_at (sr cl_cwhere 0) wh ++ R) < fuel).
+        { destruct tg as [|cs|n0]; cbn [app length] in Hlen; rewrite ?app_length in Hlen; cbn [length] in Hlen; rewrite ?app_length in *; lia. }
+        rewrite <- app_assoc.
+        rewrite assign_list_ok; [|exact Hsets|destruct sets; [discriminate|discriminate]|exact HRw|lia|exact Hl2|lia].
+        cbn [bind app].
+        rewrite opt_where_at_ok; [reflexivity|exact Hwh|exact HR|lia|rewrite app_length in Hl2; lia]. }
+    destruct tg as [|cs|n0]; cbn [app cur advance peek].
+    - isT_conc. cbn [andb]. cbn iota. cbn [bind fst snd]. apply Hact_ok.
+    - destruct cs as [|c0 cl]; [discriminate Htg|]. isT_conc. cbn iota.
+      rewrite <- app_assoc. cbn [app]. rewrite paren_ident_list_ok. cbn [bind fst snd]. apply Hact_ok.
+    - isT_conc. cbn [andb lit]. change (eqfold "CONSTRAINT" "CONSTRAINT") with true. cbn iota.
+      cbn [cur advance]. unfold is_identifier. isT_conc. cbn [orb negb lit]. cbn iota. cbn [bind fst snd]. apply Hact_ok.
+  Qed.
+
+  Lemma conflict_hd : forall (sr : srho) cf R, hd_in Tret R -> hd_in Ton (conflict_toks sr cf ++ R).
+  Proof.
+    intros sr cf R HR. destruct cf as [c|]; cbn [conflict_toks app].
+    - split; reflexivity.
+    - eapply hd_weaken; [exact HR|unfold Ton; in_sub].
+  Qed.
+
+  Lemma opt_conflict_ok : forall (sr : srho) cf R d,
+      optb conflict_ok cf = true -> hd_in Tret R ->
+      S d + conflict_depth sr cf <= md ->
+      length (conflict_toks sr cf ++ R) < fuel ->
+      let X := conflict_toks sr cf ++ R in
+      (isT (cur X) TyOn && String.eqb (upper (lit (peek X))) "DUPLICATE" = false) /\
+      (if isT (cur X) TyOn && String.eqb (upper (lit (peek X))) "CONFLICT" then
+         do (c, ts1) <- parse_on_conflict pe d (advance (advance X)); Val (Some c, ts1)
+       else Val (None, X)) = Val (option_map ast_of_conflict cf, R).
+  Proof.
+    intros sr cf R d Hok HR Hdep Hlen X. subst X. destruct cf as [c|].
+    - destruct (on_conflict_ok sr c R d Hok HR Hdep Hlen) as (tail & Etail & Hp). rewrite Etail.
+      cbn [cur peek advance lit]. isT_conc. cbn [andb].
+      change (String.eqb (upper "CONFLICT") "DUPLICATE") with false. change (String.eqb (upper "CONFLICT") "CONFLICT") with true.
+      split; [reflexivity|]. cbn iota. rewrite Hp. reflexivity.
+    - cbn [conflict_toks app option_map]. rewrite (hd_isT Tret R TyOn HR eq_refl). cbn [andb]. split; reflexivity.
+  Qed.
+
+  Lemma parse_insert_ok : forall (sr : srho) base t cols src cf ret stop d,
+      body_ok (BInsert t cols src cf ret) = true ->
       match src with inl _ => True | inr q => qflag q end ->
       stmt_follow stop ->
-      d + body_depth sr base (BInsert t cols src ret) <= md ->
-      length (render_body sr base (BInsert t cols src ret) ++ stop) <= fuel ->
-      exists tail, render_body sr base (BInsert t cols src ret) ++ stop = Tk TyInsert "INSERT" :: tail /\
+      d + body_depth sr base (BInsert t cols src cf ret) <= md ->
+      length (render_body sr base (BInsert t cols src cf ret) ++ stop) <= fuel ->
+      exists tail, render_body sr base (BInsert t cols src cf ret) ++ stop = Tk TyInsert "INSERT" :: tail /\
         parse_insert md sf pe d tail
         = Val (GInsert None (join_dot t) (map (fun c => GIdent c "") cols)
                  (match src with inl rows => map (map ast_of) rows | inr _ => [] end)
-                 (match src with inl _ => None | inr q => Some (ast_of_query q) end) (map ast_of ret) None [], stop).
+                 (match src with inl _ => None | inr q => Some (ast_of_query q) end) (map ast_of ret)
+                 (option_map ast_of_conflict cf) [], stop).
   Proof.
-    intros sr base t cols src ret stop d Hok Hflag Hstop Hdep Hlen.
-    cbn [body_ok] in Hok. apply andb_prop in Hok. destruct Hok as [Hok Hsrc]. apply andb_prop in Hok. destruct Hok as [Hp Hret].
+    intros sr base t cols src cf ret stop d Hok Hflag Hstop Hdep Hlen.
+    cbn [body_ok] in Hok. apply andb_prop in Hok. destruct Hok as [Hok Hsrc]. apply andb_prop in Hok. destruct Hok as [Hok Hcf].
+    apply andb_prop in Hok. destruct Hok as [Hp Hret].
     destruct t as [|p ps]; [discriminate|].
-    cbn [render_body body_depth] in *.
+    cbn [render_body body_depth] in *. cbv zeta in Hdep.
     eexists. split; [cbn [app]; reflexivity|].
     set (k := base + match src with inl _ => 0 | inr q => qsize q end) in *.
     pose proof (ret_hd (shift sr k) ret stop Hstop) as HRr.
+    pose proof (conflict_hd (shift sr k) cf _ HRr) as HRc.
     repeat (cbn [app] in *; rewrite <- app_assoc in * ). cbn [app] in *.
     cbn [length] in Hlen. rewrite ?app_length in Hlen.
+    set (Rr := returning_toks (shift sr k) ret ++ stop) in *.
+    set (Rc := conflict_toks (shift sr k) cf ++ Rr) in *.
     unfold parse_insert. cbn [cur advance]. isT_conc. cbn iota. cbn [negb].
     assert (Hsrc_hd : forall Y, isT (cur (match src with
                                  | inl rows => Tk TyValues "VALUES" :: sep_by [tComma] (rows_toks (shift sr base) 0 rows)
@@ -1495,29 +1600,42 @@ Section Stmts.
     cbn [rewrap bind].
     rewrite cols_list_ok by (apply (Hsrc_hd _)).
     cbn [bind].
+    assert (HlenRc : length Rc < fuel).
+    { subst Rc Rr. rewrite ?app_length in *. lia. }
+    destruct (opt_conflict_ok (shift sr k) cf Rr d Hcf HRr) as (Hdup & Hconf); [lia|exact HlenRc|].
+    fold Rc in Hdup, Hconf.
+    assert (Hrest : (if isT (cur Rc) TyOn && String.eqb (upper (lit (peek Rc))) "DUPLICATE" then Unmodelled
+                     else
+                       do (oc, ts) <- (if isT (cur Rc) TyOn && String.eqb (upper (lit (peek Rc))) "CONFLICT" then
+                                          do (c, ts1) <- parse_on_conflict pe d (advance (advance Rc)); Val (Some c, ts1)
+                                        else Val (None, Rc));
+                       do (ret0, ts0) <- parse_returning pe d ts;
+                       Val (GInsert None (join_dot (p :: ps)) (map (fun c => GIdent c "") cols)
+                              (match src with inl rows => map (map ast_of) rows | inr _ => [] end)
+                              (match src with inl _ => None | inr q => Some (ast_of_query q) end) ret0 oc [], ts0))
+                    = Val (GInsert None (join_dot (p :: ps)) (map (fun c => GIdent c "") cols)
+                             (match src with inl rows => map (map ast_of) rows | inr _ => [] end)
+                             (match src with inl _ => None | inr q => Some (ast_of_query q) end) (map ast_of ret)
+                             (option_map ast_of_conflict cf) [], stop)).
+    { rewrite Hdup, Hconf. cbn [bind]. subst Rr.
+      rewrite returning_ok; [reflexivity|exact Hret|exact Hstop|lia|subst Rc; rewrite ?app_length in HlenRc; rewrite ?app_length; lia]. }
     destruct src as [rows|q].
     - apply andb_prop in Hsrc. destruct Hsrc as [Hrne Hrows].
-      subst k. rewrite ?Nat.add_0_r in *.
       cbn [app cur advance]. isT_conc. cbn iota.
       cbn [length] in Hlen. rewrite ?app_length in Hlen.
-      rewrite values_rows_ok; [|exact Hrows|destruct rows; [discriminate|discriminate]|exact HRr|lia
-                               |rewrite ?app_length; lia|rewrite ?app_length; lia].
-      cbn [bind].
-      rewrite (hd_isT Tret _ TyOn HRr eq_refl). cbn [andb].
-      rewrite returning_ok; [reflexivity|exact Hret|exact Hstop|lia|rewrite ?app_length; lia].
-    - assert (Hqf : query_follow (returning_toks (shift sr k) ret ++ stop)).
-      { unfold returning_toks, list_clause. destruct (exprs_toks (shift sr k) cl_returning 0 ret) as [|x xs].
+      rewrite values_rows_ok; [|exact Hrows|destruct rows; [discriminate|discriminate]|exact HRc|lia
+                               |subst Rc Rr; rewrite ?app_length; lia|subst Rc Rr; rewrite ?app_length; lia].
+      cbn [bind]. exact Hrest.
+    - assert (Hqf : query_follow Rc).
+      { subst Rc. destruct cf as [c|]; cbn [conflict_toks app]; [eexists _, _; split; reflexivity|].
+        subst Rr. unfold returning_toks, list_clause. destruct (exprs_toks (shift sr k) cl_returning 0 ret) as [|x xs].
         - cbn [app]. apply stmt_follow_query. exact Hstop.
         - cbn [app]. eexists _, _. split; reflexivity. }
-      destruct (query_ok_parse sr q base (returning_toks (shift sr k) ret ++ stop) d Hsrc Hflag Hqf) as (tail & Etail & Hparse).
+      destruct (query_ok_parse sr q base Rc d Hsrc Hflag Hqf) as (tail & Etail & Hparse).
       { lia. }
-      { rewrite !app_length. lia. }
+      { subst Rc Rr. rewrite ?app_length. lia. }
       rewrite Etail. cbn [cur advance]. isT_conc. cbn iota.
-      rewrite Hparse. cbn [bind].
-      rewrite (hd_isT Tret _ TyOn HRr eq_refl). cbn [andb].
-      rewrite returning_ok; [reflexivity|exact Hret|exact Hstop|subst k; lia|].
-      assert (length tail < length (render_query sr base q ++ returning_toks (shift sr k) ret ++ stop)) by (rewrite Etail; cbn [length]; lia).
-      rewrite !app_length in *. lia.
+      rewrite Hparse. cbn [bind]. exact Hrest.
   Qed.
 
   (* ---------------------------------------------------------------------------------------------- *)
@@ -1531,7 +1649,7 @@ Section Stmts.
 
   Definition body_flag (b : mbody) : Prop :=
     d_no_alias_after_column sf = false \/
-    match b with BQuery q => query_bare_alias_free q | BInsert _ _ (inr q) _ => query_bare_alias_free q | _ => true end = true.
+    match b with BQuery q => query_bare_alias_free q | BInsert _ _ (inr q) _ _ => query_bare_alias_free q | _ => true end = true.
 
   Lemma body_ok_parse : forall (sr : srho) base b stop d,
       body_ok b = true -> body_flag b -> stmt_follow stop ->
@@ -1542,12 +1660,12 @@ Section Stmts.
       /\ isT (cur (render_body sr base b ++ stop)) TyComma = false.
   Proof.
     intros sr base b stop d Hok Hflag Hstop Hdep Hlen. unfold main_dispatch, ast_of_stmt. cbn [st_with st_body ast_of_with option_map].
-    destruct b as [q|t cols src ret|t sets wh ret|t wh ret].
+    destruct b as [q|t cols src cf ret|t sets wh ret|t wh ret].
     - cbn [body_ok body_depth render_body] in *.
       destruct (query_ok_parse sr q base stop d Hok) as (tail & Etail & Hparse);
         [destruct Hflag as [Hf|Hb]; [left; exact Hf|right; exact Hb]|apply stmt_follow_query; exact Hstop|lia|exact Hlen|].
       rewrite Etail. cbn [cur advance]. isT_conc. cbn iota. split; [exact Hparse|split; reflexivity].
-    - destruct (parse_insert_ok sr base t cols src ret stop d Hok) as (tail & Etail & Hparse);
+    - destruct (parse_insert_ok sr base t cols src cf ret stop d Hok) as (tail & Etail & Hparse);
         [destruct src as [rows|q]; [exact I|destruct Hflag as [Hf|Hb]; [left; exact Hf|right; exact Hb]]|exact Hstop|exact Hdep|exact Hlen|].
       rewrite Etail. cbn [cur advance]. isT_conc. cbn iota. split; [|split; reflexivity].
       rewrite Hparse. destruct src; reflexivity.
@@ -1569,7 +1687,7 @@ Section Stmts.
   Lemma set_with_body : forall w b, set_with w (ast_of_stmt (MkStmt None b)) = ast_of_stmt_w (Some w) b.
   Proof.
     intros w b. unfold ast_of_stmt, ast_of_stmt_w. cbn [st_with st_body ast_of_with option_map].
-    destruct b as [q|t cols src ret|t sets wh ret|t wh ret]; [|reflexivity|reflexivity|reflexivity].
+    destruct b as [q|t cols src cf ret|t sets wh ret|t wh ret]; [|reflexivity|reflexivity|reflexivity].
     change (ast_of_query_w None q) with (ast_of_query q). apply set_with_query.
   Qed.
 
